@@ -184,10 +184,25 @@ MixedSteps(cs, k, j, js, vprop) ==
       ELSE IF onConn THEN << [call EXCEPT !.exp = @ @@ [sessionless |-> TRUE]], ReactOut(c, k + j, j) >>
       ELSE << call, ReactIn(c, k + j, js) >>)
      \o MixedSteps(Tail(cs), k, j + 1, IF rs = {} \/ onConn THEN js ELSE js + 1, vprop)
+\* the same command on the connection, in the session, and on the connection again (nothing else in between)
+RECURSIVE SandwichSteps(_, _, _, _)
+SandwichSteps(cs, k, j, js) ==
+  IF cs = <<>> THEN <<>> ELSE
+  LET c == Head(cs)
+      rs == ReqRecs(c, k + j)
+      r == CHOOSE x \in rs : TRUE
+      onConn(jj) == [CallV(c, r, k + jj, "conn", "C17", FALSE) EXCEPT !.exp = @ @@ [sessionless |-> TRUE]]
+  IN (IF rs = {} THEN <<>>
+      ELSE << onConn(j), ReactOut(c, k + j, j), CallV(c, r, k + j + 1, "sess", "C17", FALSE), ReactIn(c, k + j + 1, js), onConn(j + 2), ReactOut(c, k + j + 2, j + 2) >>)
+     \o SandwichSteps(Tail(cs), k, j + 3, IF rs = {} THEN js ELSE js + 1)
+Sandwich(id, k) ==
+  [id |-> id, prefix |-> "hs", info |-> [family |-> "api-sandwich", insess |-> TRUE, integLen |-> S.integLen, bmcSid |-> S.bmcSid],
+   steps |-> SandwichSteps(Cmds(k), k, 1, 1)]
 Mixed(id, k, rev) ==
   [id |-> id, prefix |-> "hs", info |-> [family |-> "api-mixed", insess |-> TRUE, integLen |-> S.integLen, bmcSid |-> S.bmcSid],
    steps |-> MixedSteps(IF rev THEN Rev(Cmds(k)) ELSE Cmds(k), k, 1, 1, IF rev THEN "C17" ELSE "C07")]
-Scripts == { Mixed("apix-" \o ToString(k) \o (IF rv THEN "r" ELSE "f"), Seed * 100 + k, rv) : k \in 1..(IF Tier = "thorough" THEN 24 ELSE 6), rv \in BOOLEAN }
+Scripts == { Sandwich("apis-" \o ToString(k), Seed * 100 + k) : k \in 1..(IF Tier = "thorough" THEN 12 ELSE 3) } \cup
+           { Mixed("apix-" \o ToString(k) \o (IF rv THEN "r" ELSE "f"), Seed * 100 + k, rv) : k \in 1..(IF Tier = "thorough" THEN 24 ELSE 6), rv \in BOOLEAN }
            \cup
            { Script("api-" \o tg \o "-" \o ToString(k) \o (IF rv THEN "r" ELSE "f"), Seed * 100 + k, tg, rv)
              : k \in 1..(IF Tier = "thorough" THEN 40 ELSE 8), tg \in {"conn", "sess"}, rv \in BOOLEAN }
